@@ -131,7 +131,33 @@ def parseFName (t : String) : Option FName :=
         | _ => none
       | none => none
 
+def digitsVal (base : Nat) (s : String) : Option Nat :=
+  if s.isEmpty || s.length > 40 then none else
+  s.toList.foldlM (fun acc c => (hexVal c).bind (fun d => if d < base then some (acc * base + d) else none)) 0
+
+/-- integer literals spelled in hex (`ux:`/`ix:`, rendered 0x…) or octal (`uo:`/`io:`, rendered 0…);
+    `i…` = written with a minus sign -/
+def parseRadix (t : String) : Option AV :=
+  let mk (neg : Bool) (n : Nat) : Option AV :=
+    if neg then (if n ≤ two63 then some (.sint (-(n : Int))) else none)
+    else (if n < two64 then some (.uint n) else none)
+  match dropPrefix? t "ux:" with
+  | some d => (digitsVal 16 d).bind (mk false)
+  | none =>
+  match dropPrefix? t "ix:" with
+  | some d => (digitsVal 16 d).bind (mk true)
+  | none =>
+  match dropPrefix? t "uo:" with
+  | some d => (digitsVal 8 d).bind (mk false)
+  | none =>
+  match dropPrefix? t "io:" with
+  | some d => (digitsVal 8 d).bind (mk true)
+  | none => none
+
 def parseScalar (t : String) : Option AV :=
+  match parseRadix t with
+  | some v => some v
+  | none =>
   match dropPrefix? t "u:" with
   | some d => if isDec d then d.toNat?.bind (fun n => if n < two64 then some (.uint n) else none) else none
   | none =>
